@@ -33,6 +33,11 @@ pub enum Target {
 pub enum POp {
     NewSeq { len: usize, seed: u64, protein: bool },
     NewMotif { width: usize, n: usize, seed: u64, protein: bool },
+    /// `lightmotif.ScoringMatrix(values, background=...)` (DNA) with a background from a small table of
+    /// eighths, some of them with equal entries.
+    NewPssm { width: usize, seed: u64, bg: usize },
+    /// `pssm = pssm.reverse_complement()` (DNA).
+    RevComp,
     Index { target: Target, index: i64 },
     Len { target: Target },
     TakeView { target: Target },
@@ -89,10 +94,14 @@ struct MotifObj {
     pwm: Vec<Vec<f32>>,
     pssm: Vec<Vec<f32>>,
     sf: Vec<f64>,
-    counts_obj: PyObject,
-    pwm_obj: PyObject,
+    counts_obj: Option<PyObject>,
+    pwm_obj: Option<PyObject>,
     pssm_obj: PyObject,
+    /// Rust-side twin of a DNA scoring matrix built explicitly (for reverse complements).
+    twin: Option<lightmotif::pwm::ScoringMatrix<Dna>>,
 }
+
+const BACKGROUNDS: [[u8; 4]; 6] = [[2, 2, 2, 2], [3, 1, 1, 3], [1, 3, 3, 1], [3, 1, 3, 1], [1, 2, 2, 3], [4, 1, 2, 1]];
 
 struct ScoresObj {
     obj: PyObject,
@@ -271,6 +280,8 @@ fn op_name(op: &POp) -> &'static str {
     match op {
         POp::NewSeq { .. } => "new-seq",
         POp::NewMotif { .. } => "new-motif",
+        POp::NewPssm { .. } => "new-pssm",
+        POp::RevComp => "reverse_complement",
         POp::Index { .. } => "index",
         POp::Len { .. } => "len",
         POp::TakeView { .. } => "take-view",
@@ -382,8 +393,8 @@ impl PyViewSim {
         match t {
             Target::Enc => w.seq.as_ref().map(|s| &s.enc),
             Target::Striped => w.seq.as_ref().map(|s| &s.striped),
-            Target::Counts => w.motif.as_ref().map(|m| &m.counts_obj),
-            Target::Pwm => w.motif.as_ref().map(|m| &m.pwm_obj),
+            Target::Counts => w.motif.as_ref().and_then(|m| m.counts_obj.as_ref()),
+            Target::Pwm => w.motif.as_ref().and_then(|m| m.pwm_obj.as_ref()),
             Target::Pssm => w.motif.as_ref().map(|m| &m.pssm_obj),
             Target::Scores => w.scores.as_ref().map(|s| &s.obj),
             Target::Dist => w.dist.as_ref().map(|d| &d.0),
@@ -438,7 +449,7 @@ impl PyViewSim {
                 });
                 match res {
                     Ok(Ok((c, p, s))) => {
-                        w.motif = Some(MotifObj { protein, counts, pwm, pssm, sf, counts_obj: c, pwm_obj: p, pssm_obj: s });
+                        w.motif = Some(MotifObj { protein, counts, pwm, pssm, sf, counts_obj: Some(c), pwm_obj: Some(p), pssm_obj: s, twin: None });
                         w.dist = None;
                         None
                     }
@@ -450,16 +461,113 @@ impl PyViewSim {
                     Err(p) => Some(Violation::new(p.class(), "op=new-motif", p.msg)),
                 }
             }
+            POp::NewPssm { width, seed, bg } => {
+                use lightmotif::abc::Background;
+                use lightmotif::dense::DenseMatrix;
+                let mut r = Prng::new(seed);
+                let width = width.max(1);
+                let rows: Vec<[f32; 5]> = (0..width)
+                    .map(|_| {
+                        let mut row = [0f32; 5];
+                        for j in 0..4 {
+                            row[j] = (r.range(0, 96) as f32 - 64.0) / 8.0;
+                        }
+                        row[4] = f32::NEG_INFINITY;
+                        row
+                    })
+                    .collect();
+                let b = BACKGROUNDS[bg % BACKGROUNDS.len()];
+                let freqs = [b[0] as f32 / 8.0, b[1] as f32 / 8.0, b[2] as f32 / 8.0, b[3] as f32 / 8.0, 0.0];
+                let twin = sut(|| {
+                    let dense = DenseMatrix::<f32, lightmotif::num::U5>::from_rows(rows.iter());
+                    lightmotif::pwm::ScoringMatrix::<Dna>::new(Background::new(freqs).expect("HARNESS: background"), dense)
+                });
+                let twin = match twin {
+                    Ok(t) => t,
+                    Err(p) => return Some(Violation::new(p.class(), "op=new-pssm,what=model", p.msg)),
+                };
+                let sf = match sut(|| twin.to_score_distribution().sf().to_vec()) {
+                    Ok(x) => x,
+                    Err(p) => return Some(Violation::new(p.class(), "op=new-pssm,what=model", p.msg)),
+                };
+                let values = PyDict::new_bound(py);
+                let bgd = PyDict::new_bound(py);
+                for (j, sym) in ["A", "C", "T", "G", "N"].iter().enumerate() {
+                    values.set_item(sym, PyList::new_bound(py, rows.iter().map(|row| row[j] as f64))).unwrap();
+                    bgd.set_item(sym, freqs[j] as f64).unwrap();
+                }
+                let kwargs = PyDict::new_bound(py);
+                kwargs.set_item("background", bgd).unwrap();
+                let res = sut(|| lm.getattr("ScoringMatrix").and_then(|c| c.call((values,), Some(&kwargs))).map(|x| x.unbind()));
+                match res {
+                    Ok(Ok(obj)) => {
+                        let pssm: Vec<Vec<f32>> = rows.iter().map(|r| r.to_vec()).collect();
+                        w.motif = Some(MotifObj { protein: false, counts: Vec::new(), pwm: Vec::new(), pssm, sf, counts_obj: None, pwm_obj: None, pssm_obj: obj, twin: Some(twin) });
+                        w.dist = None;
+                        None
+                    }
+                    Ok(Err(e)) => Some(Violation::new(
+                        if e.is_instance_of::<pyo3::panic::PanicException>(py) { "python-panic" } else { "unexpected-exception" },
+                        "op=new-pssm,what=construct",
+                        format!("{:?}: {}", op, e),
+                    )),
+                    Err(p) => Some(Violation::new(p.class(), "op=new-pssm", p.msg)),
+                }
+            }
+            POp::RevComp => {
+                let motif = match &w.motif {
+                    Some(m) if !m.protein => m,
+                    _ => return None,
+                };
+                // the model of the reverse complement: from the Rust twin when there is one, otherwise by
+                // reversing the rows and exchanging A<->T, C<->G of the known matrix (uniform background)
+                let twin = match &motif.twin {
+                    Some(t) => sut(|| t.reverse_complement()),
+                    None => sut(|| {
+                        let rows: Vec<[f32; 5]> = motif.pssm.iter().map(|r| [r[0], r[1], r[2], r[3], r[4]]).collect();
+                        let dense = lightmotif::dense::DenseMatrix::<f32, lightmotif::num::U5>::from_rows(rows.iter());
+                        lightmotif::pwm::ScoringMatrix::<Dna>::new(lightmotif::abc::Background::uniform(), dense).reverse_complement()
+                    }),
+                };
+                let twin = match twin {
+                    Ok(t) => t,
+                    Err(p) => return Some(Violation::new(p.class(), "op=reverse_complement,what=model", p.msg)),
+                };
+                let pssm: Vec<Vec<f32>> = motif.pssm.iter().rev().map(|r| vec![r[2], r[3], r[0], r[1], r[4]]).collect();
+                let sf = match sut(|| twin.to_score_distribution().sf().to_vec()) {
+                    Ok(x) => x,
+                    Err(p) => return Some(Violation::new(p.class(), "op=reverse_complement,what=model", p.msg)),
+                };
+                let obj = motif.pssm_obj.clone_ref(py);
+                let had_dist = w.dist.is_some();
+                let r = sut(|| obj.bind(py).call_method0("reverse_complement").map(|x| x.unbind()));
+                match r {
+                    Ok(Ok(rc)) => {
+                        if had_dist {
+                            o.probe("reverse-complement-after-distribution-was-materialised");
+                        }
+                        w.motif = Some(MotifObj { protein: false, counts: Vec::new(), pwm: Vec::new(), pssm, sf, counts_obj: None, pwm_obj: None, pssm_obj: rc, twin: Some(twin) });
+                        w.dist = None;
+                        None
+                    }
+                    Ok(Err(e)) if e.is_instance_of::<pyo3::panic::PanicException>(py) => Some(Violation::new("python-panic", "op=reverse_complement,what=rc", format!("{:?}: {}", op, e))),
+                    Ok(Err(e)) => Some(Violation::new("unexpected-exception", "op=reverse_complement,what=rc", format!("reverse_complement() raised {}", e))),
+                    Err(p) => Some(Violation::new(p.class(), "op=reverse_complement", p.msg)),
+                }
+            }
             POp::Index { target, index } => {
                 let (len, obj) = match (target, Self::object_for(w, target)) {
                     (Target::Enc, Some(ob)) => (w.seq.as_ref().unwrap().syms.len(), ob.clone_ref(py)),
-                    (Target::Counts, Some(ob)) | (Target::Pwm, Some(ob)) | (Target::Pssm, Some(ob)) => (w.motif.as_ref().unwrap().counts.len(), ob.clone_ref(py)),
+                    (Target::Counts, Some(ob)) | (Target::Pwm, Some(ob)) | (Target::Pssm, Some(ob)) => (w.motif.as_ref().unwrap().pssm.len(), ob.clone_ref(py)),
                     (Target::Scores, Some(ob)) => (w.scores.as_ref().unwrap().valid.len(), ob.clone_ref(py)),
                     _ => return None,
                 };
                 // aim the index at the interesting places: 0, len-1, len, -1, -len, -len-1
                 let li = len as i64;
-                let idx = match index.rem_euclid(8) {
+                let idx = match index.rem_euclid(11) {
+                    8 => i64::MIN,
+                    9 => [i64::MAX, i64::MIN + 1, -(1i64 << 31), 1i64 << 31, -(1i64 << 32), (1i64 << 32) + 1][(index / 11).rem_euclid(6) as usize],
+                    10 => li + (index / 11).rem_euclid(3),
                     0 => 0,
                     1 => li - 1,
                     2 => li,
@@ -468,14 +576,14 @@ impl PyViewSim {
                     5 => -li - 1,
                     6 => {
                         if li > 0 {
-                            (index / 8).rem_euclid(li)
+                            (index / 11).rem_euclid(li)
                         } else {
                             0
                         }
                     }
                     _ => {
                         if li > 0 {
-                            -1 - (index / 8).rem_euclid(li)
+                            -1 - (index / 11).rem_euclid(li)
                         } else {
                             -1
                         }
@@ -528,7 +636,7 @@ impl PyViewSim {
             POp::Len { target } => {
                 let (want, obj) = match (target, Self::object_for(w, target)) {
                     (Target::Enc, Some(ob)) => (w.seq.as_ref().unwrap().syms.len(), ob.clone_ref(py)),
-                    (Target::Counts, Some(ob)) | (Target::Pwm, Some(ob)) | (Target::Pssm, Some(ob)) => (w.motif.as_ref().unwrap().counts.len(), ob.clone_ref(py)),
+                    (Target::Counts, Some(ob)) | (Target::Pwm, Some(ob)) | (Target::Pssm, Some(ob)) => (w.motif.as_ref().unwrap().pssm.len(), ob.clone_ref(py)),
                     (Target::Scores, Some(ob)) => (w.scores.as_ref().unwrap().valid.len(), ob.clone_ref(py)),
                     _ => return None,
                 };
@@ -790,7 +898,9 @@ fn gen_world(r: &mut Prng, idx: u64) -> Sc {
     ops.push(POp::NewMotif { width: width(r), n: r.range(1, 12), seed: r.next_u64(), protein });
     let targets = [Target::Enc, Target::Striped, Target::Counts, Target::Pwm, Target::Pssm, Target::Scores, Target::Dist];
     for _ in 0..n {
-        ops.push(match r.below(24) {
+        ops.push(match r.below(28) {
+            24 | 25 => POp::NewPssm { width: width(r), seed: r.next_u64(), bg: r.usize_below(6) },
+            26 | 27 => POp::RevComp,
             0 => POp::NewSeq { len: seq_len(r), seed: r.next_u64(), protein: if r.chance(1, 8) { !protein } else { protein } },
             1 | 2 => POp::NewMotif { width: width(r), n: r.range(1, 12), seed: r.next_u64(), protein: if r.chance(1, 8) { !protein } else { protein } },
             3 | 4 | 5 | 6 => POp::Index { target: *r.pick(&[Target::Enc, Target::Counts, Target::Pwm, Target::Pssm, Target::Scores]), index: r.next_u64() as i64 >> 1 },
@@ -867,6 +977,15 @@ impl Sim for PyViewSim {
                         }
                     }
                 }
+                POp::NewPssm { width, seed, bg } => {
+                    if width > 1 {
+                        for nw in [width / 2, width - 1] {
+                            let mut s = sc.clone();
+                            s.ops[i] = POp::NewPssm { width: nw, seed, bg };
+                            out.push(s);
+                        }
+                    }
+                }
                 POp::NewMotif { width, n, seed, protein } => {
                     if width > 1 {
                         for nw in [width / 2, width - 1] {
@@ -903,7 +1022,7 @@ impl Sim for PyViewSim {
     }
 
     fn rule(_prop: &str) -> String {
-        "Cases: histories of 6..24 operations on Python objects of the lightmotif module inside an embedded CPython: new sequence (EncodedSequence + stripe, lengths 0 / <32 / multiples of 32 / ~1000 / up to 1500, DNA and protein), new motif (create from 1..12 sequences, width 1 / 2..33 / 34..80), integer indexing aimed at 0, len-1, len, -1, -len, -len-1 and random in-range values on EncodedSequence / CountMatrix / WeightMatrix / ScoringMatrix / StripedScores, len(), memoryview export of EncodedSequence / StripedSequence / ScoringMatrix / StripedScores / ScoreDistribution, re-reading every earlier view, dropping views, calculate() and scan() (which add look-ahead rows to the striped sequence and may reallocate it behind a live view), copy(), drop + gc.collect(); under the system allocator, exact-align+poison (growth always moves, freed memory 0x5A) or guard pages (freed blocks unmapped). Oracle: Python sequence semantics of indexing, logical len, every view's ndim / format / shape and element-by-element contents equal to a logical-content model built on the Rust side from the same inputs - at export time and at every later read; only Exception subclasses raised, never PanicException. Distinct = distinct tuples (allocator policy, set of operation kinds, set of targets viewed or indexed). Non-trivial = every history (at least two objects are created and used).".to_string()
+        "Cases: histories of 6..24 operations on Python objects of the lightmotif module inside an embedded CPython: new sequence (EncodedSequence + stripe, lengths 0 / <32 / multiples of 32 / ~1000 / up to 1500, DNA and protein), new motif (create from 1..12 sequences, width 1 / 2..33 / 34..80), explicit ScoringMatrix(values, background=...) with backgrounds in eighths, reverse_complement() (before and after the score distribution was materialised), integer indexing also at -2**63, 2**63-1 and +-2**31 / 2**32, integer indexing aimed at 0, len-1, len, -1, -len, -len-1 and random in-range values on EncodedSequence / CountMatrix / WeightMatrix / ScoringMatrix / StripedScores, len(), memoryview export of EncodedSequence / StripedSequence / ScoringMatrix / StripedScores / ScoreDistribution, re-reading every earlier view, dropping views, calculate() and scan() (which add look-ahead rows to the striped sequence and may reallocate it behind a live view), copy(), drop + gc.collect(); under the system allocator, exact-align+poison (growth always moves, freed memory 0x5A) or guard pages (freed blocks unmapped). Oracle: Python sequence semantics of indexing, logical len, every view's ndim / format / shape and element-by-element contents equal to a logical-content model built on the Rust side from the same inputs - at export time and at every later read; only Exception subclasses raised, never PanicException. Distinct = distinct tuples (allocator policy, set of operation kinds, set of targets viewed or indexed). Non-trivial = every history (at least two objects are created and used).".to_string()
     }
 
     fn required_probes(_prop: &str, _tier: Tier) -> Vec<&'static str> {
